@@ -51,6 +51,17 @@ def main():
     if mode == "fit":
         res = reference_digest(spec["world"], int(sys.argv[3]), install_seams=False)
         print(json.dumps({"digest": res[0] if isinstance(res, tuple) else res}))
+    elif mode == "batch":
+        # digests of many generated worlds under THIS interpreter's hash seed (no SimSet, n_jobs=1)
+        from . import pairsim  # pylint: disable=C0415
+
+        prop, seed, tier = spec["property"], spec["seed"], spec["tier"]
+        out = {}
+        for idx in spec["indices"]:
+            world = pairsim.generate(prop, seed, idx, tier)["world"]
+            res = reference_digest(world, 1, install_seams=False)
+            out[str(idx)] = res[0] if isinstance(res, tuple) else res
+        print(json.dumps({"digests": out}))
     elif mode == "load":
         # cross-process restart: load the JSON saved by another process and transform
         from . import worlds  # pylint: disable=C0415
